@@ -30,6 +30,10 @@ Definition res_receiver_send_data (last : bool) (c : connp) : st * connp :=
     let have := match cur_slice k (k_receiver k) (k_read k) with Some s => length s | None => 0%nat end in
     let c := if (have <? k_read k - k_receiver k)%nat then c <| c_fault := true |> else c in
     let c := match k_data k with None => if (0 <? k_receiver k)%nat then c <| c_fault := true |> else c | Some _ => c end in
+    (* d.tx = connp->out_tx: after a RESPONSE_COMPLETE callback refused (STOP/ERROR) the receiver registered for an interim
+       100 response is still there when the transaction is detached later, and the callback is run with d.tx == NULL;
+       the event type cannot name a NULL transaction (the driver prints -1): fault *)
+    let c := match c_out_tx c with None => c <| c_fault := true |> | Some _ => c end in
     match run_data_hook cb h (out_txi c) (cur_slice k (k_receiver k) (k_read k)) last c with
     | (ST_OK, c) => (ST_OK, rs_set_out (fun k => k <| k_receiver := k_read k |>) c)
     | r => r
